@@ -87,7 +87,7 @@ TEXT["C13"] = {
     "text": ("Proof: Props/C13.lean proves for every evaluation history of a group and every module configuration: from the first evaluation worse than OK up to and including the first OK again every "
              "notification carries the same non-empty id and start (incident_identity); different incidents have different ids given non-repeating UUIDs (incidents_distinct); at the closing evaluation "
              "each accepting send-close module gets exactly one notification, a close (exactly_one_close); a close is only ever sent after an open incident (no_close_without_incident); several "
-             "groups and clusters interleaved behave per group like that group's own history (run_projection). Tie: real checkAndSendResponseToModules/notifyModule vs the compiled model."),
+             "groups and clusters interleaved behave per group like that group's own history (run_projection). Tie: real checkAndSendResponseToModules/notifyModule vs the compiled model. The periodic refresh of the group records (real processClusterList/processConsumerList against a scripted storage, incl. a storage too busy to take the consumer-list requests before their one-second timeout) is part of the stream; refresh is modelled (Notifier.refresh) and stalled_refresh_keeps_every_record / stalled_refresh_keeps_incident prove that a refresh whose requests are given up changes no record of a listed cluster."),
     "note": ("Trusted: Lean kernel + standard axioms; harness incl. its clock-freezing/time-shifting hook; UUID freshness assumed. Not modelled: group-list refresh mid-incident, concurrent responses for one group."),
 }
 TEXT["C14"] = {
